@@ -237,9 +237,10 @@ class Check:
         if self.errors:
             for e in self.errors[:8]:
                 print("HARNESS-ERROR:", e, file=sys.stderr)
-            return 2
         if reported:
-            return 1
+            return 1            # a reproduced violation stands, whatever else went wrong in the run
+        if self.errors:
+            return 2
         return 0
 
 
